@@ -393,6 +393,14 @@ func init() {
 			strings.ReplaceAll(decRealistic, "\n", "\r\n"),
 			strings.ReplaceAll(decRealistic, "\n", "\r"),
 		}
+		// more than 99 open levels, then a dedent by many and a re-descent
+		for _, d := range []int{99, 100, 130} {
+			var sb strings.Builder
+			for l := 0; l <= d; l++ {
+				fmt.Fprintf(&sb, "%d NOTE l%d\n", l, l)
+			}
+			corpus = append(corpus, sb.String()+"3 X\n4 Y\n0 Z\n")
+		}
 		for _, t := range corpus {
 			c02all(c, t)
 		}
